@@ -134,8 +134,6 @@ class SimTor(CtlPeer):
             items = kvline_items(rest)
         except ValueError as e:
             return err(513, 'Unacceptable option value: %s' % e)
-        if not items:
-            return err(512, 'Wrong number of arguments')
         for k, v in items:
             if k.lower() not in self.conf and not k.startswith('__'):
                 return err(552, 'Unrecognized option: Unknown option \'%s\'.  Failing.' % k)
